@@ -8,14 +8,15 @@
    documents (C02_events_invariant: same event stream for any two extension words when every
    block of the source is block_ok; C02_meta_events_invariant unconditionally); the analysis
    pass on quiet event streams (C02_analyse_invariant) and both halves together
-   (C02_pipeline_invariant_partial); and the enumeration of the 192 extension sets over the
-   REGENERATED bit values.
-   C02_full_statement is NOT proved: what is missing is that core_doc alone makes the
-   metadata and ingredient events quiet (proved for ingredients at the component level:
-   C02_ingredient_plain); it is kept visible as a Definition and monitored on the
-   implementation under all 192 sets. *)
+   (C02_pipeline_invariant), with the event postcondition C02_events_quiet that makes core_doc
+   alone sufficient; C02_full : C02_full_statement; and the enumeration of the 192 extension
+   sets over the REGENERATED bit values.
+   Converse half at document level for any source: C02_alias_off_document, C02_range_off_document
+   (generic event postcondition, Proofs/C02Converse.v); the other six families have gate lemmas.
+   Not theorems: absence of errors on well-formed core recipes, the converse readings of the other
+   families at document level - monitored on the implementation under all 192 sets. *)
 From CL Require Import Base.StrLemmas Model.Parser Gen.CharClass Proofs.ParserGates Proofs.C02Invariance
-  Proofs.C02Wide Model.EventBridge Proofs.C02Pipeline.
+  Proofs.C02Wide Model.EventBridge Proofs.C02Pipeline Proofs.C02Quiet Proofs.C02Full Proofs.C02Converse.
 From CL Require Model.Analysis Proofs.C02AnalysisGates Proofs.C02AnalyseInv.
 
 Theorem C02_range_off : forall cfg ts, has cfg X_RANGE_VALUES = false -> range_value cfg ts = None.
@@ -278,18 +279,33 @@ Theorem C02_meta_events_invariant :
 Proof. exact meta_events_invariant. Qed.
 Print Assumptions C02_meta_events_invariant.
 
-(* both halves: same events, and the same analysis result for any two extension records when
-   the bridged stream is quiet (see AnalysisSide.C02_analyse_invariant) *)
-Theorem C02_pipeline_invariant_partial :
+(* the parser's test for a bracketed key (outer-trimmed key, mod.rs 361-371) and the collector's
+   (text_trimmed key, event_consumer.rs 352-354) agree *)
+Theorem C02_bracket_tests_agree :
+  forall key, is_config_key key = false -> key_bracketed_str (text_trimmed key) = false.
+Proof. exact bracket_tests_agree. Qed.
+Print Assumptions C02_bracket_tests_agree.
+
+(* core_doc alone: every ingredient event of the stream has no modifier bits and no intermediate
+   data, every metadata event a key that is no config key (event postcondition carried through
+   step_loop, parse_block, blocks_loop) *)
+Theorem C02_events_quiet :
+  forall Ucls cfg e s evs, core_doc Ucls cfg s = true -> events Ucls (with_ext cfg e) s = Done evs -> Forall Pev evs.
+Proof. exact events_evs. Qed.
+Print Assumptions C02_events_quiet.
+
+(* both halves, for ANY two extension words and ANY two extension records: same events, same
+   analysis result; the only hypothesis besides core_doc is the converter-dependent one *)
+Theorem C02_pipeline_invariant :
   forall Ucls cfg e1 e2 s evs ci_key yaml_ok find_iq unit_class input acfg x1 x2,
     core_doc Ucls cfg s = true ->
     events Ucls (with_ext cfg e1) s = Done evs ->
-    forallb (CL.Proofs.C02AnalyseInv.quiet_event find_iq unit_class) (abstract_events evs) = true ->
+    oracle_quiet find_iq unit_class (abstract_events evs) = true ->
     events Ucls (with_ext cfg e2) s = Done evs
     /\ CL.Model.Analysis.analyse ci_key yaml_ok find_iq unit_class input x1 acfg (abstract_events evs)
        = CL.Model.Analysis.analyse ci_key yaml_ok find_iq unit_class input x2 acfg (abstract_events evs).
-Proof. exact pipeline_invariant. Qed.
-Print Assumptions C02_pipeline_invariant_partial.
+Proof. exact pipeline_full. Qed.
+Print Assumptions C02_pipeline_invariant.
 
 (* the hypotheses are satisfiable: a recipe with a front matter, a plain `>>` line in the body, a
    section, a text block, unit-less and fractional quantities, a locked quantity, a number-led
@@ -319,15 +335,14 @@ Example C02_core_doc_rejects :
   = [false; false; false; false; false].
 Proof. vm_compute. reflexivity. Qed.
 
-(* ---- the full statement: NOT proved (monitored by checks/c02.py) ------------------------------- *)
+(* ---- the full statement, and its proof --------------------------------------------------------- *)
 (* For every source of the class core_doc and any two of the 192 sets: the same event stream, and
    the same analysis result under the extension records read off the two sets, as soon as the
    converter-dependent triggers are absent (oracle_quiet: no number+known-unit phrase in a step
-   text, timers with a number and a time unit).
-   What separates the proved C02_pipeline_invariant_partial from it: there the absence of bracketed
-   keys and of reference modifiers is a hypothesis on the event stream (quiet_event), here it has
-   to follow from core_doc.  The statement's "with no errors" is not part of it either: core_doc
-   admits malformed input such as "@{}", which reports the same error under every set. *)
+   text, timers with a number and a time unit - both are answers of the converter, an oracle).
+   Not part of it: the statement's "with no errors" (core_doc admits malformed input such as
+   "@{}", which reports the same error under every set; equal streams carry the absence of errors
+   from one set to every other) and the converse readings (gate lemmas *_off above). *)
 Definition C02_full_statement : Prop :=
   forall (Ucls : N -> ucls) (cfg : pcfg) (e1 e2 : N) (s : str) (evs : list pevent)
          ci_key yaml_ok find_iq unit_class input acfg,
@@ -338,7 +353,50 @@ Definition C02_full_statement : Prop :=
     /\ CL.Model.Analysis.analyse ci_key yaml_ok find_iq unit_class input (aext_of e1) acfg (abstract_events evs)
        = CL.Model.Analysis.analyse ci_key yaml_ok find_iq unit_class input (aext_of e2) acfg (abstract_events evs).
 
-(* the first formulation (syntactic class on the whole token list), kept for reference *)
+Theorem C02_full : C02_full_statement.
+Proof.
+  intros Ucls cfg e1 e2 s evs ci_key yaml_ok find_iq unit_class input acfg _ _ Hc He Ho.
+  exact (pipeline_full Ucls cfg e1 e2 s evs ci_key yaml_ok find_iq unit_class input acfg (aext_of e1) (aext_of e2) Hc He Ho).
+Qed.
+Print Assumptions C02_full.
+
+(* the converter-dependent hypothesis is satisfiable on the sample: a converter that knows no
+   unit in step text and takes every timer unit for a time unit *)
+Example C02_oracle_quiet_satisfiable :
+  exists evs, events U (with_ext C02_sample_cfg 0) C02_sample_source = Done evs
+              /\ oracle_quiet (fun _ => None) (fun _ => 1) (abstract_events evs) = true.
+Proof. eexists. split; [vm_compute; reflexivity|]. vm_compute. reflexivity. Qed.
+
+(* ---- the converse half at document level, for ANY source ----------------------------------- *)
+(* COMPONENT_ALIAS off: no ingredient or cookware event of the stream carries an alias, i.e. a `|`
+   between the marker and `{` is never split off the name (with C02_alias_off: the name is the
+   text of all the name tokens) *)
+Theorem C02_alias_off_document :
+  forall Ucls c s evs, has c X_COMPONENT_ALIAS = false -> events Ucls c s = Done evs -> Forall Palias evs.
+Proof. exact alias_off_document. Qed.
+Print Assumptions C02_alias_off_document.
+
+(* RANGE_VALUES off: no quantity of any ingredient, cookware or timer event is a range - `2-3`
+   can only be a number-free text value *)
+Theorem C02_range_off_document :
+  forall Ucls c s evs, has c X_RANGE_VALUES = false -> events Ucls c s = Done evs -> Forall Prange evs.
+Proof. intros Ucls c s evs H. exact (range_off_document c H Ucls s evs). Qed.
+Print Assumptions C02_range_off_document.
+
+(* and on "@a|b{2-3}" under the empty set: name "a|b", text value "2-3" *)
+Example C02_converse_sample :
+  match events U (with_ext C02_sample_cfg 0) [64;97;124;98;123;50;45;51;125] with
+  | Done [EvStart true; EvIngredient i; EvEnd true] =>
+      match i_alias i, i_qty i with
+      | None, Some q => match qv (q_val q) with VText t => str_eqb t [50;45;51] | _ => false end
+                        && str_eqb (text_str (i_name i)) [97;124;98]
+      | _, _ => false
+      end
+  | _ => false
+  end = true.
+Proof. vm_compute. reflexivity. Qed.
+
+(* the first formulation (syntactic class on the whole token list), kept for reference; not proved *)
 Definition C02_full_statement_tokens : Prop :=
   forall (Ucls : N -> ucls) (cfg : pcfg) (e1 e2 : N) (s : str),
     In e1 ext_sets -> In e2 ext_sets -> core_source Ucls s = true ->
